@@ -84,11 +84,15 @@ func (g *Group) fireDue(now int64) {
 
 // jumpToNextTimer is called by the scheduler when no task can run: the clock of the group with the earliest pending
 // timer jumps to that timer's instant.
-func (s *Sched) jumpToNextTimer() bool {
+func (s *Sched) jumpToNextTimer() bool { return s.jumpTimer(false) }
+
+// jumpTimer(true) also looks at the timers of calls whose tasks have all finished: a timer that a call leaves behind
+// fires after the call has ended, and what it does then (deliver an event, touch shared state) must be seen.
+func (s *Sched) jumpTimer(finishedToo bool) bool {
 	var best *simTimer
 	seen := map[*Group]bool{}
 	for _, t := range s.tasks {
-		if t.done || seen[t.G] {
+		if (t.done && !finishedToo) || seen[t.G] {
 			continue
 		}
 		seen[t.G] = true
